@@ -47,6 +47,12 @@ type gthread struct {
 	arrive  chan string
 	release chan struct{}
 	done    chan struct{}
+	parked  bool // driver-side: the thread has arrived at a gate and has not been released yet
+}
+
+func (t *gthread) rel() {
+	t.parked = false
+	t.release <- struct{}{}
 }
 
 var (
@@ -661,6 +667,7 @@ func (l label) coq() string {
 func waitPoint(th *gthread, want string, d time.Duration) (string, bool) {
 	select {
 	case p := <-th.arrive:
+		th.parked = true
 		return p, p == want
 	case <-th.done:
 		return "done", want == "done"
@@ -679,7 +686,7 @@ func (s *sut) runSchedule(ls []label, leader0 uint64) ([2]*tstate, []string, str
 	ts := [2]*tstate{{pc: "init"}, {pc: "init"}}
 	owner := -1
 	d := 2 * time.Second
-	release := func(t *tstate) { t.th.release <- struct{}{} }
+	release := func(t *tstate) { t.th.rel() }
 	fail := ""
 	for _, l := range ls {
 		if fail != "" {
@@ -786,35 +793,44 @@ func (s *sut) runSchedule(ls []label, leader0 uint64) ([2]*tstate, []string, str
 		}
 	}
 	if fail != "" {
-		// unblock whatever is still parked so that nothing leaks into the next schedule
-		atomic.StoreInt32(&s.st.gated, 0)
-		for i := 0; i < 2; i++ {
-			select {
-			case s.st.goEnter <- struct{}{}:
-			default:
-			}
-			select {
-			case s.st.goReply <- struct{}{}:
-			default:
+		var ths []*gthread
+		for _, t := range ts {
+			if t.th != nil {
+				ths = append(ths, t.th)
 			}
 		}
-		for _, t := range ts {
-			if t.th == nil {
+		s.drain(ths...)
+	}
+	return ts, sets, fail
+}
+
+// drain lets every parked or blocked thread run to completion (gates open, handler released), so that nothing —
+// in particular no single flight held by a parked thread — leaks into the next case.
+func (s *sut) drain(ths ...*gthread) {
+	atomic.StoreInt32(&s.st.gated, 0)
+	deadline := time.Now().Add(8 * time.Second)
+	finished := map[*gthread]bool{}
+	for time.Now().Before(deadline) && len(finished) < len(ths) {
+		for _, th := range ths {
+			if finished[th] {
 				continue
 			}
-			for k := 0; k < 6; k++ {
-				select {
-				case <-t.th.done:
-				case <-t.th.arrive:
-					t.th.release <- struct{}{}
-				case s.st.goEnter <- struct{}{}:
-				case s.st.goReply <- struct{}{}:
-				case <-time.After(300 * time.Millisecond):
-				}
+			if th.parked {
+				th.rel()
+			}
+			select {
+			case <-th.done:
+				finished[th] = true
+			case <-th.arrive:
+				th.parked = true
+			case s.st.goEnter <- struct{}{}:
+			case s.st.goReply <- struct{}{}:
+			case <-s.st.enter:
+			case <-s.st.handled:
+			case <-time.After(20 * time.Millisecond):
 			}
 		}
 	}
-	return ts, sets, fail
 }
 
 // runOverlap: read A syncs (leader at r) and is parked before its scan; the leader's endpoint then behaves as
@@ -869,9 +885,13 @@ func (s *sut) runOverlap(mode string) (lib.Case, string) {
 	// A: sync point, fetch (ungated endpoint), set, parked before List
 	thA, tA := launch("A")
 	step(thA, "sync")
-	thA.release <- struct{}{}
+	if fail == "" {
+		thA.rel()
+	}
 	step(thA, "set")
-	thA.release <- struct{}{}
+	if fail == "" {
+		thA.rel()
+	}
 	step(thA, "list")
 	// the leader's endpoint changes behaviour
 	switch mode {
@@ -887,7 +907,9 @@ func (s *sut) runOverlap(mode string) (lib.Case, string) {
 	// B runs to completion
 	thB, tB := launch("B")
 	step(thB, "sync")
-	thB.release <- struct{}{}
+	if fail == "" {
+		thB.rel()
+	}
 	for k := 0; k < 3 && fail == ""; k++ {
 		p, _ := waitPoint(thB, "done", d)
 		if p == "done" {
@@ -897,12 +919,15 @@ func (s *sut) runOverlap(mode string) (lib.Case, string) {
 			fail = "B did not finish"
 			break
 		}
-		thB.release <- struct{}{}
+		thB.rel()
 	}
 	// A resumes
 	if fail == "" {
-		thA.release <- struct{}{}
+		thA.rel()
 		step(thA, "done")
+	}
+	if fail != "" {
+		s.drain(thA, thB)
 	}
 	calls := s.rec.take()
 	var sets []string
@@ -1103,9 +1128,6 @@ func main() {
 
 	// ---- part 2b: a failed fetch of one read must not disturb another read (coordinator scenario)
 	for _, mode := range []string{"unreachable", "400", "garbage", "ok"} {
-		if unrealised >= 3 {
-			break
-		}
 		cs, fail := s.runOverlap(mode)
 		w.Add(cs)
 		if fail != "" {
